@@ -165,6 +165,16 @@ func checkC14(c C14Case, col *Collector) outcome {
 	col.Label(c.Client + ":" + region)
 	desc := fmt.Sprintf("client=%s newest trusted ts=%d.%09d period=%ds+%dns block time=%d.%09d (%s)", c.Client, c.TsSec, c.TsNs, c.Period, c.PerNs, now.Unix(), now.Nanosecond(), region)
 
+	if c.Client != "tm" {
+		// BSC and ETH clients measure in whole seconds: the sub-second part of the block time cannot change the answer
+		for _, ns := range []int64{0, 1, 999_999_999} {
+			octx := ctx.WithBlockTime(time.Unix(now.Unix(), ns).UTC())
+			if other := csNow.Status(octx, k.ClientStore(octx, c14Name), cdc); other != status {
+				return v("status-depends-on-sub-second-part", "Status() = %s at block time %d.%09d but %s at %d.%09d (the client's unit is the second): %s",
+					status, now.Unix(), now.Nanosecond(), other, now.Unix(), ns, desc)
+			}
+		}
+	}
 	switch c.Mode {
 	case 0:
 		if mustExpired && status != exported.Expired {
@@ -243,6 +253,6 @@ func checkC14(c C14Case, col *Collector) outcome {
 
 func TestC14(t *testing.T) {
 	runProp(t, "C14",
-		"case = client type (tm / bsc / eth), newest trusted timestamp (realistic 1.7e9 s and small magnitudes down to 100 s, tm with sub-second parts), trusting period (1 s .. 5e7 s, tm also +1 ns / +999999999 ns), block time = expiry boundary + {-2,-1,0,1,2,3 client units, +-1000, +-1e9, far} with an arbitrary sub-second part for bsc/eth, and a mode: Status(), the Active gate of ClientKeeper.UpdateClient (distinguished by ErrClientNotActive), or PacketKeeper.RecvPacket / AcknowledgePacket / RecvCleanPacket with a *valid* proof (real IAVL proof for tm, real account+storage trie proof for bsc/eth) so that only the client's status can refuse it; oracle = arithmetic in the client's own unit: block time >= ts+period+1 unit => Expired, update refused as not active, packet messages refused; block time < ts+period => Active, update not refused for expiry, the validly proven packet message accepted; inside the single boundary unit either answer is allowed; non-trivial = block time within 3 units of the boundary, or a packet-message mode",
+		"case = client type (tm / bsc / eth), newest trusted timestamp (realistic 1.7e9 s and small magnitudes down to 100 s, tm with sub-second parts), trusting period (1 s .. 5e7 s, tm also +1 ns / +999999999 ns), block time = expiry boundary + {-2,-1,0,1,2,3 client units, +-1000, +-1e9, far} with an arbitrary sub-second part for bsc/eth, and a mode: Status(), the Active gate of ClientKeeper.UpdateClient (distinguished by ErrClientNotActive), or PacketKeeper.RecvPacket / AcknowledgePacket / RecvCleanPacket with a *valid* proof (real IAVL proof for tm, real account+storage trie proof for bsc/eth) so that only the client's status can refuse it; oracle = arithmetic in the client's own unit: block time >= ts+period+1 unit => Expired, update refused as not active, packet messages refused; block time < ts+period => Active, update not refused for expiry, the validly proven packet message accepted; inside the single boundary unit either answer is allowed, but for bsc/eth (unit = second) Status() must not depend on the sub-second part of the block time; non-trivial = block time within 3 units of the boundary, or a packet-message mode",
 		genC14, checkC14)
 }
